@@ -36,6 +36,8 @@ def main():
     if out.strip():
         print('/repo is not clean:', out); sys.exit(2)
     patch = os.path.join(dst, 'patch.diff')
+    if os.path.exists(os.path.join(dst, 'patch.ported.diff')):  # the original no longer applies after a later fix: commit
+        patch = os.path.join(dst, 'patch.ported.diff')
     demo = [f for f in os.listdir(dst) if f.endswith('.go')]
     assert demo, 'no demo'
     demo = demo[0]
@@ -44,7 +46,7 @@ def main():
     tag = re.search(r'^//go:build (\w+)', text, re.M)
     tests = re.findall(r'^func (Test\w+)\(', text, re.M)
     pdir = PKGDIR.get(pkg)
-    meta = {'property': prop, 'patch': 'patch.diff', 'demo': demo, 'ran': []}
+    meta = {'property': prop, 'patch': os.path.basename(patch), 'demo': demo, 'ran': []}
     if pdir is None:
         print('cannot place demo for package', pkg); sys.exit(2)
     target = os.path.join('/repo', pdir, 'zz_seeded_demo_test.go')
